@@ -1,0 +1,81 @@
+//go:build verif
+
+package router
+
+import (
+	"net/netip"
+	"time"
+
+	"github.com/mycoria/mycoria/frame"
+	"github.com/mycoria/mycoria/mgr"
+)
+
+// VerifHandleFrame synchronously runs the router frame handler on one frame,
+// exactly like one iteration of the frameHandler worker (including the release
+// of the frame when the handler returns an error). A recovered panic is
+// returned as an error wrapping mgr.ErrWorkerPanic.
+// Verification hook: only compiled with the "verif" build tag.
+func (r *Router) VerifHandleFrame(f frame.Frame) (handleErr error, panicErr error) {
+	panicErr = r.mgr.Do("verif router", func(w *mgr.WorkerCtx) error {
+		handleErr = r.handleFrame(w, f)
+		if handleErr != nil {
+			f.ReturnToPool()
+		}
+		return nil
+	})
+	return handleErr, panicErr
+}
+
+// VerifHandleTunPacket synchronously runs the tun packet handler on one local
+// packet, exactly like one iteration of the handleTun worker.
+// Verification hook: only compiled with the "verif" build tag.
+func (r *Router) VerifHandleTunPacket(packetData []byte) (panicErr error) {
+	return r.mgr.Do("verif tun", func(w *mgr.WorkerCtx) error {
+		r.handleTunPacket(w, packetData)
+		return nil
+	})
+}
+
+// VerifConnState is an exported copy of one connection state entry.
+type VerifConnState struct {
+	LocalIP    netip.Addr
+	RemoteIP   netip.Addr
+	Protocol   uint8
+	LocalPort  uint16
+	RemotePort uint16
+	Inbound    bool
+	Status     uint32
+}
+
+// VerifConnStates returns a copy of all connection states.
+// Verification hook: only compiled with the "verif" build tag.
+func (r *Router) VerifConnStates() []VerifConnState {
+	r.connStatesLock.RLock()
+	defer r.connStatesLock.RUnlock()
+
+	out := make([]VerifConnState, 0, len(r.connStates))
+	for k, e := range r.connStates {
+		out = append(out, VerifConnState{
+			LocalIP:    k.localIP,
+			RemoteIP:   k.remoteIP,
+			Protocol:   k.protocol,
+			LocalPort:  k.localPort,
+			RemotePort: k.remotePort,
+			Inbound:    e.inbound,
+			Status:     e.status.Load(),
+		})
+	}
+	return out
+}
+
+// VerifExpireHello simulates the passage of the hello ping timers (30s after
+// sending, 5s cooldown after completion) for the given remote router.
+// Verification hook: only compiled with the "verif" build tag.
+func (h *HelloPingHandler) VerifExpireHello(remote netip.Addr) {
+	h.activeLock.Lock()
+	defer h.activeLock.Unlock()
+
+	if st := h.active[remote]; st != nil {
+		st.expires = time.Now().Add(-time.Hour)
+	}
+}
